@@ -21,6 +21,8 @@ import errno
 import io
 import json
 import re
+import socket
+import ssl
 from urllib.parse import parse_qs, urlsplit
 
 from tornado.httpclient import HTTPRequest, HTTPResponse
@@ -66,6 +68,7 @@ class SimSlave:
         # a session is kept for SESSION_EXPIRY_FACTOR * max(timeout, session_floor) seconds (0 = exactly core/sessions.py)
         self.session_floor = session_floor
         self.net_up = True
+        self.fault = 'refused'
         self.latencies = list(latencies) or [0.01]
         self._lat_i = 0
         self.requests = []                   # [ms, method, path, body]   (everything that reached the device)
@@ -85,13 +88,15 @@ class SimSlave:
         self._lat_i += 1
         return lat
 
-    def set_net(self, up):
+    def set_net(self, up, fault=None):
+        """fault: how the unreachable device shows to the HTTP client during this outage (one of FAULTS)"""
         self.net_up = bool(up)
         self.polls_since_change = 0
         if not up:
+            self.fault = fault or 'refused'
             for s in self.sessions.values():
                 if s.future is not None and not s.future.done():
-                    s.future.set_exception(_refused())
+                    s.future.set_exception(NetDown())
                     s.future = None
 
     # ------------------------------------------------------------------ device side mutations (the "script" acts here)
@@ -297,6 +302,55 @@ def _refused():
     return e
 
 
+class NetDown(Exception):
+    """internal: the exchange is cut by the outage; turned into the outage's fault by the fake client"""
+
+
+# what an unreachable / misbehaving peer looks like to tornado's client (the exceptions AsyncHTTPClient.fetch raises with
+# raise_error=False, or the non-2xx / undecodable answers of something in between); core/responses.parse distinguishes:
+# 'timeout' in the text, errno ECONNREFUSED / EHOSTUNREACH / ENETUNREACH / EAI_NONAME / EAI_NODATA / any other errno, no
+# errno, HTTP status with a JSON body, a body that is not JSON
+FAULTS = ('refused', 'hostunreach', 'netunreach', 'timeout', 'gai_again', 'gai_noname', 'gai_nodata', 'reset', 'ssl',
+          'closed', 'http500', 'http503', 'badjson', 'html502', 'http502empty')
+
+
+async def raise_fault(kind, request):
+    """raises what fetch() raises, or returns (status, body bytes) for answers that are HTTP responses"""
+    from tornado.simple_httpclient import HTTPStreamClosedError, HTTPTimeoutError
+    if kind == 'refused':
+        raise _refused()
+    if kind == 'hostunreach':
+        raise OSError(errno.EHOSTUNREACH, 'No route to host')
+    if kind == 'netunreach':
+        raise OSError(errno.ENETUNREACH, 'Network is unreachable')
+    if kind == 'timeout':
+        await asyncio.sleep(max(0.0, (request.connect_timeout or 10) - 0.5))
+        raise HTTPTimeoutError('Timeout while connecting')
+    if kind == 'gai_again':
+        raise socket.gaierror(socket.EAI_AGAIN, 'Temporary failure in name resolution')
+    if kind == 'gai_noname':
+        raise socket.gaierror(socket.EAI_NONAME, 'Name or service not known')
+    if kind == 'gai_nodata':
+        raise socket.gaierror(socket.EAI_NODATA, 'No address associated with hostname')
+    if kind == 'reset':
+        raise ConnectionResetError(errno.ECONNRESET, 'Connection reset by peer')
+    if kind == 'ssl':
+        raise ssl.SSLError(1, '[SSL: WRONG_VERSION_NUMBER] wrong version number (_ssl.c:1000)')
+    if kind == 'closed':
+        raise HTTPStreamClosedError('Stream closed')
+    if kind == 'http500':
+        return 500, json.dumps({'error': 'unexpected-error', 'message': 'boom'}).encode()
+    if kind == 'http503':
+        return 503, json.dumps({'error': 'busy'}).encode()
+    if kind == 'badjson':
+        return 200, b'{"truncated": '
+    if kind == 'html502':
+        return 502, b'<html><body>Bad Gateway</body></html>'
+    if kind == 'http502empty':           # not generated: see notes/C12.md
+        return 502, b''
+    raise _refused()
+
+
 def check_body_like_tornado(request):
     """tornado/simple_httpclient.py, _HTTPConnection.run (same text in curl_httpclient._curl_setup_request)"""
     if not request.allow_nonstandard_methods:
@@ -348,7 +402,16 @@ class FakeAsyncHTTPClient:
         if not is_listen:
             sim.inflight += 1
         try:
-            return await self._exchange(sim, u, request, raise_error, is_listen)
+            try:
+                return await self._exchange(sim, u, request, raise_error, is_listen)
+            except NetDown:
+                sim.refused += 1
+                status, data = await raise_fault(sim.fault, request)
+                resp = HTTPResponse(request, status, headers=HTTPHeaders({'Content-Type': 'application/json'}),
+                                    buffer=io.BytesIO(data))
+                if resp.error is not None and raise_error:
+                    raise resp.error
+                return resp
         finally:
             if not is_listen:
                 sim.inflight -= 1
@@ -356,8 +419,7 @@ class FakeAsyncHTTPClient:
     async def _exchange(self, sim, u, request, raise_error, is_listen):
         await asyncio.sleep(sim.next_latency())
         if not sim.net_up:
-            sim.refused += 1
-            raise _refused()
+            raise NetDown()
         body = None
         if request.body is not None:
             try:
@@ -381,10 +443,10 @@ class FakeAsyncHTTPClient:
                 _tag, sess, evs = payload
                 if not sim.net_up:
                     sess.queue = evs + sess.queue          # the answer cannot be delivered: nothing is lost
-                    raise _refused()
+                    raise NetDown()
                 payload = evs
             elif not sim.net_up:
-                raise _refused()
+                raise NetDown()
             sim.last_delivery_ms = _ms()
             if request.method == 'GET' and status == 200:
                 kind = 'listen' if is_listen else path.rstrip('/')
